@@ -1,7 +1,7 @@
 (* C01 — output equals the R2RML/RML generation rules.  Statements only. *)
 From Coq Require Import String.
 From Morph Require Import Base.UStr Gen.Tables Model.Terms Model.Data Model.Engine Model.Mapping Model.Spec
-     Proofs.DataP Proofs.SplitP Proofs.TemplateP Proofs.TermP Proofs.RowwiseP Proofs.RowSpecP Proofs.RuleSpecP.
+     Proofs.DataP Proofs.SplitP Proofs.TemplateP Proofs.TermP Proofs.RowwiseP Proofs.RowSpecP Proofs.RuleSpecP Proofs.DocSpecP.
 Local Open Scope N_scope.
 
 (* a row of the source reaches term construction iff none of the columns the rule references holds a null (NULL or a
@@ -79,6 +79,16 @@ Theorem engine_rule_is_rule_semantics : forall cfg fe rules get_data scfg, cfg_a
        exists ls, rule_triples cfg fe rules get_data rl = Ok ls).
 Proof. exact plain_rule_is_spec. Qed.
 Print Assumptions engine_rule_is_rule_semantics.
+
+(* the generation rules read on the surface document (triples maps, predicate-object maps, rr:class, graph maps on the
+   subject map, language / datatype maps, R2RML 7.4 term types) and read rule by rule on the table the normaliser
+   produces give the same statements: every document of constant / reference / template maps, every table (N-QUADS) *)
+Theorem document_rules_are_rule_table_rules : forall scfg fe tables, s_nquads scfg = true ->
+  forall d0 rules, forallb plain_tm d0 = true -> normalise d0 = Ok rules ->
+  forall x, In x (spec_lines scfg fe d0 tables) <->
+            exists rl sr, In rl rules /\ r_asserted rl = true /\ In sr (tables (r_src rl)) /\ spec_rule_line scfg rl sr = Some x.
+Proof. exact doc_spec_is_rule_spec. Qed.
+Print Assumptions document_rules_are_rule_table_rules.
 
 (* the hypotheses are satisfiable: a template rule with a language-tagged literal object and a graph template *)
 Definition ex_rule : rule :=
